@@ -14,6 +14,7 @@ search (model-free): dense (I_k^T A_k I_k)[i,j] with k = max(level i, level j) e
      represent_fine(lv=k) (checked by evaluation in C05); on affine geometry with polynomial data
      additionally I^T A_fine I with the finest-level assembly (Gauss exactness assumed).
 """
+import json
 import os
 import subprocess
 import sys
@@ -174,6 +175,92 @@ def gen_space(rng, dim, p, n0, nref, disparity, truncate, bdspecs, maxlevels):
     return hs, hist
 
 
+
+class _Unready:
+    """an assembler input that is not usable yet: every attribute access raises"""
+    def __getattr__(self, name):
+        raise RuntimeError('input not ready (attribute %s)' % name)
+
+    def __call__(self, *a, **k):
+        raise RuntimeError('input not ready')
+
+
+def retry_history(ctx, rng, snap, desc, dim, mname, fA, vfs, args, truncate, affine, dsp, sp, nbr_s, lvl_cache, req, exp, meta):
+    """failure-and-retry history on ONE HDiscretization object: the first assemble_matrix() raises inside the assembly (a required
+    entry of asm_args is missing, or is an object that raises on first use), the caller repairs asm_args and calls
+    assemble_matrix() / assemble_functional() again.  The stateless model says: the retried results are those of a fresh
+    object; the object's observable state (hdiscr.truncate, hs.truncate) must be what it was before the failed call."""
+    from pyiga._hdiscr import HDiscretization
+    hs2 = snap.copy()
+    vf = vfs[(mname, dim)]; vfa = vfs[(fA, dim)]
+    names = [inp.name for inp in vf.inputs]
+    if not names:
+        return
+    victim = names[int(rng.integers(0, len(names)))]
+    fault = ['missing', 'raises-on-use'][int(rng.integers(0, 2))]
+    args2 = dict(args)
+    if fault == 'missing':
+        del args2[victim]
+    else:
+        args2[victim] = _Unready()
+    ops = ['HDiscretization(hs, %s, asm_args with `%s` %s)' % (FORMS[mname][0], victim, fault)]
+    d2 = dict(desc); d2['failure_and_retry_on_one_HDiscretization'] = ops
+    L = snap.numlevels
+    try:
+        hd = HDiscretization(hs2, vf, args2)
+    except Exception as ex:
+        return      # rejected at construction: nothing to retry
+    ctx.count('failure-and-retry histories'); ctx.count('fault=' + fault)
+    ctx.mark('C03 %s' % json.dumps(d2, default=str)[:3500])
+    raised = None
+    try:
+        hd.assemble_matrix()
+    except Exception as ex:
+        if type(ex).__name__ in ('CompileError', 'LinkError', 'DistutilsExecError'):
+            raise InfraError('compiling the assembler for `%s` failed: %s' % (mname, str(ex)[:300]))
+        raised = type(ex).__name__
+    ops.append('assemble_matrix() -> %s' % (('raises ' + raised) if raised else 'returns'))
+    if raised is None:
+        ctx.count('fault did not raise')
+    state = (bool(hd.truncate), bool(hs2.truncate))
+    if state != (bool(truncate), bool(truncate)):
+        ops.append('state after the exception: hdiscr.truncate=%s hs.truncate=%s (space was created with truncate=%s)' % (state[0], state[1], truncate))
+        ctx.violation('hasm-state-after-exception', 'after assemble_matrix() raised %s the discretization object reports truncate=%s, its '
+                      'space truncate=%s, but the space was created with truncate=%s' % (raised, state[0], state[1], truncate),
+                      {'case': d2}, True)
+    args2[victim] = args[victim]           # the caller repairs the cause (same dict the object holds)
+    ops.append('asm_args[`%s`] = <valid input>' % victim)
+    for si, (kind, name, vfx) in enumerate([('mat', mname, vf), ('fun', fA, vfa), ('mat', mname, vf)]):
+        ops.append('%s (retry)' % ('assemble_matrix()' if kind == 'mat' else 'assemble_functional(%s)' % FORMS[name][0]))
+        d3 = dict(d2); d3['failure_and_retry_on_one_HDiscretization'] = list(ops); d3['failing_step'] = len(ops) - 1
+        ctx.mark('C03 %s' % json.dumps(d3, default=str)[:3500])
+        try:
+            if kind == 'fun':
+                if name not in lvl_cache:
+                    lvl_cache[name] = [full_level_vector(snap, vfx, args, k) for k in range(L)]
+                e = np.asarray(hd.assemble_functional(vfx))
+            else:
+                rec = Recorder(hd) if si == 0 else rec
+                rec.calls.clear()
+                A_impl = hd.assemble_matrix(symmetric=False)
+                ta = [None] * L
+                for (k, rows, bbox) in rec.calls:
+                    if k < L:
+                        ta[k] = rows
+                e = (ta, A_impl)
+        except Exception as ex:
+            if type(ex).__name__ in ('CompileError', 'LinkError', 'DistutilsExecError'):
+                raise InfraError('compiling the assembler for `%s` failed: %s' % (name, str(ex)[:300]))
+            e = 'err-%s: %s' % (type(ex).__name__, str(ex)[:200])
+        lv = lvl_cache.get(name)
+        if kind == 'fun':
+            req.append('hfun bad' if lv is None else 'hfun %s %d %s' % (sp, truncate, plist(lv, lambda v: plist(v.tolist(), frac))))
+            exp.append(e); meta.append(('fun', d3, name, snap, lv, affine))
+        else:
+            req.append('hasm bad' if lv is None else 'hasm %s %d %d %d %s %s' % (sp, dsp, 0, truncate, nbr_s, plist(lv, fmt_mat_in)))
+            exp.append(e); meta.append(('mat', d3, name, snap, lv, affine, False))
+
+
 def run(ctx):
     # private module cache of this check: a sub-directory of the digest-keyed cache (other checks compile
     # `u*v*dx` too; keeping the directories apart avoids concurrent builds of the same module)
@@ -203,6 +290,9 @@ def run(ctx):
                 'HDiscretization object runs the sequence matrix, functional A, functional B, functional A, matrix (symmetric flag if the '
                 'form is symmetric), then the same HSpace is refined once more and matrix + functional A are assembled again through the '
                 'same object; every step is compared with the model sum of THAT form\'s level assemblies and with the dense oracle; '
+                'failure-and-retry histories on one object: the first assemble_matrix() raises inside the assembly (an asm_args entry missing '
+                'or raising on use), the caller repairs asm_args, matrix / functional / matrix are retried and compared with the stateless '
+                'model, and hdiscr.truncate / hs.truncate must be unchanged after the exception; '
                 'affine and (2-D) quarter-annulus geometry; non-trivial = >= 2 levels')
     vfs = {}
     for d in (1, 2):
@@ -272,6 +362,7 @@ def run(ctx):
                 d2['failing_step'] = si if stage == 0 else len(seq) + 1 + si
                 vf = vfs[(name, dim)]
                 ctx.count('form=' + name)
+                ctx.mark('C03 %s step %d (%s:%s)' % (json.dumps(d2, default=str)[:3000], d2['failing_step'], kind, FORMS[name][0]))
                 try:
                     if kind == 'fun':
                         if name not in lvl_cache:
@@ -305,6 +396,9 @@ def run(ctx):
                 else:
                     req.append('hasm bad' if lv is None else 'hasm %s %d %d %d %s %s' % (sp, dsp, sym, truncate, nbr_s, plist(lv, fmt_mat_in)))
                     exp.append(e); meta.append(('mat', d2, name, snap, lv, affine, sym))
+            if stage == 0:
+                retry_history(ctx, rng, snap, desc, dim, mname, fA, vfs, args, truncate, affine, dsp, sp, nbr_s, lvl_cache,
+                              req, exp, meta)
             if stage == 1:
                 break
             # one more refinement of the same HSpace (often activating-only: a single cell next to the refined region)
